@@ -626,14 +626,52 @@ func (s *FakeStorage) GetKeyByIDAndClientID(_ context.Context, keyID, clientID s
 type jwksRT struct {
 	body []byte
 	fail bool
+	ok   int // downloads answered successfully
 }
 
 func (t *jwksRT) RoundTrip(*http.Request) (*http.Response, error) {
 	if t.fail {
 		return nil, errors.New("jwks endpoint unreachable")
 	}
+	t.ok++
 	return &http.Response{StatusCode: 200, Status: "200 OK", Header: http.Header{"Content-Type": {"application/json"}},
 		Body: io.NopCloser(bytes.NewReader(t.body))}, nil
+}
+
+// Endpoint is the fake JWKS endpoint behind a remote key set.
+type Endpoint struct{ rt *jwksRT }
+
+// Serve changes what the endpoint answers from now on (rotation / withdrawal / outage).
+func (e *Endpoint) Serve(l []JWK, fail bool) { e.rt.body = jwksBody(l); e.rt.fail = fail }
+
+// Downloads is the number of successfully answered downloads so far.
+func (e *Endpoint) Downloads() int { return e.rt.ok }
+
+// NewRemote builds the library's remote key set over a fake endpoint (empty cache).
+func NewRemote(skip bool) (oidc.KeySet, *Endpoint) {
+	rt := &jwksRT{body: jwksBody(nil)}
+	if skip {
+		return rp.NewRemoteKeySet(&http.Client{Transport: rt}, "http://op.test/keys", rp.SkipRemoteCheck()), &Endpoint{rt}
+	}
+	return rp.NewRemoteKeySet(&http.Client{Transport: rt}, "http://op.test/keys"), &Endpoint{rt}
+}
+
+// WaitIdle waits until the remote key set's download goroutine has stored its
+// result (the library releases the waiting callers first; that window is C13's
+// subject, C02 models the sequential view). false = still busy after 2 s.
+func WaitIdle(ks oidc.KeySet) bool {
+	v := reflect.ValueOf(ks)
+	if v.Kind() != reflect.Ptr || v.Elem().Kind() != reflect.Struct {
+		return true
+	}
+	f := v.Elem().FieldByName("inflight")
+	for i := 0; f.IsValid() && !f.IsNil(); i++ {
+		if i > 20000 {
+			return false
+		}
+		time.Sleep(100 * time.Microsecond)
+	}
+	return true
 }
 
 func jwksBody(l []JWK) []byte {
@@ -670,26 +708,15 @@ func (d KeySetDesc) Build() oidc.KeySet {
 	case "openid":
 		return &op.OpenIDKeySet{Storage: &FakeStorage{Keys: d.Keys, KeysErr: d.KeysErr}}
 	case "remote":
-		rt := &jwksRT{body: jwksBody(d.Cached)}
-		var ks oidc.KeySet
-		if d.Skip {
-			ks = rp.NewRemoteKeySet(&http.Client{Transport: rt}, "http://op.test/keys", rp.SkipRemoteCheck())
-		} else {
-			ks = rp.NewRemoteKeySet(&http.Client{Transport: rt}, "http://op.test/keys")
-		}
+		ks, ep := NewRemote(d.Skip)
 		if len(d.Cached) > 0 {
-			_, _ = ks.VerifySignature(context.Background(), warm)
-			// The library hands the fetch result to the caller before its download
-			// goroutine has stored the cache and cleared the in-flight marker (that
-			// window is C13's subject). C02 models the sequential view, so wait
-			// until the key set is idle before the rotation and the measured call.
-			f := reflect.ValueOf(ks).Elem().FieldByName("inflight")
-			for i := 0; f.IsValid() && !f.IsNil() && i < 100000; i++ {
-				time.Sleep(20 * time.Microsecond)
-			}
+			ep.Serve(d.Cached, false)
+			ctx, cancel := context.WithTimeout(context.Background(), 5*time.Second)
+			_, _ = ks.VerifySignature(ctx, warm)
+			cancel()
+			WaitIdle(ks)
 		}
-		rt.body = jwksBody(d.Served)
-		rt.fail = d.ServedFail
+		ep.Serve(d.Served, d.ServedFail)
 		return ks
 	}
 	panic("profile key sets are built by the library")
